@@ -379,21 +379,25 @@ PROPS["C13"] = dict(
 
 PROPS["C20"] = dict(
     level="exploration",
-    technique="history checker: callers and supplied tasks recorded with one atomic sequence counter at the client boundary; linear-time check with unique task ids; bounded-progress probe for lost wake-ups",
+    technique="history checker: callers and supplied tasks recorded with one atomic sequence counter at the client boundary; linear-time check with unique task ids; bounded-progress probe for lost wake-ups; end-to-end byte monitor at the use site (RemoteClient range downloads of one xorb behind one url)",
     rule=("case = short history: 1..4 keys, 2..64 callers with arrival offsets in yields, tasks that succeed / fail / panic after 0..3 yields, on current_thread, multi-thread (2/4/16) runtimes and the repository ThreadPool, "
           "half of them with seeded spins / yields at the singleflight hook points; checker: task ran at most once, owner flag <-> own task ran, one owner per flight, result names a task of the same key with the matching outcome "
           "(value / error text / panic notification), no caller joins a flight whose owning call had returned before its call started, no internal-BUG variant, no waiter left pending after the scheduler "
-          "demonstrably ran everything runnable three times; non-trivial = at least one joiner; distinct = (runtime, perturbed, keys, callers / flights / joiners buckets, outcome mix) In addition single flights of 65535 / 65536 / 65537 / 131072 callers (the width of a 16-bit waiter counter) are held at a gate until every caller has registered, then released: one task execution, every caller answered."),
+          "demonstrably ran everything runnable three times; non-trivial = at least one joiner; distinct = (runtime, perturbed, keys, callers / flights / joiners buckets, outcome mix) In addition single flights of 65535 / 65536 / 65537 / 131072 callers (the width of a 16-bit waiter counter) are held at a gate until every caller has registered, then released: one task execution, every caller answered. Use site (anchor cas_client/src/remote_client.rs): RemoteClient reconstructions of plans whose fetch ranges of a xorb all share one url (same and different starting bytes, overlapping ranges, both writers, all cache modes, permuted completion order) - 'calls with different keys do not affect each other' is judged by the reconstructed bytes: a download joined to a different download's flight returns the wrong bytes or an error on a valid plan."),
     assumptions=["cancellation of a calling future is not exercised", "a wall-clock watchdog firing without scheduler evidence is inconclusive, never a violation",
                  "yields at hook points are only injected at existing suspension points; elsewhere the hooks spin the worker thread"],
     jobs=[
         Job("sflight", engine="sflight", workers=(8, 16), cases=(3000, 300000), time_s=(40, 800), **FULL),
         # flights of 65535 / 65536 / 65537 / 131072 callers on one key (the width of a 16-bit waiter counter), current-thread and 4-worker runtimes
         Job("sflight-big", engine="sflight", workers=(1, 1), cases=(1, 1), time_s=(300, 300), args={"big-flight": True, "all-sizes": True}, **FULL),
+        # the use site named in the anchors (cas_client/src/remote_client.rs): reconstruction plans whose fetch ranges of one xorb all sit behind ONE url, so that
+        # distinct downloads are kept apart by the range-download singleflight key alone; a caller handed another download's bytes fails the byte comparison
+        Job("sflight-usesite", engine="recon", workers=(8, 16), cases=(10, 1200), time_s=(40, 600), args={"shared-url": True}, **FULL),
     ],
     gates=dict(evaluations=(20000, 2000000), distinct=(3000, 6000),
                counters={"joiners": (100000, 10000000), "flights": (50000, 5000000), "histories_with_panicking_task": (5000, 500000), "histories_current": (2000, 200000), "histories_threadpool": (2000, 200000),
-                         "hook_points_crossed": (300000, 30000000), "big_flights_all_callers_answered": (8, 8)}),
+                         "hook_points_crossed": (300000, 30000000), "big_flights_all_callers_answered": (8, 8),
+                         "plans_with_one_url_per_xorb": (60, 6000), "reconstructions_compared": (700, 70000)}),
 )
 
 PROPS["C17"] = dict(
